@@ -531,6 +531,13 @@ def concrete_failure(prop, m):
         return True
     if prop == 'C11' and wrongly_accepted and any(k in op for k in ('nodeRegister', 'nodeUpdate', 'nodeSubscribe')):
         return True
+    if prop == 'C14' and m.get('kind') == 'state' and op.startswith('tx swap'):
+        # an accepted swap mints exactly amount/100 to the receiver and records it (Props/C14)
+        return True
+    if prop == 'C05' and m.get('kind') == 'state' and (op.startswith('tx planSubscribe') or op.startswith('tx nodeSubscribe')):
+        # an accepted purchase moves exactly quote x quantity / the plan price, split into the exactly rounded fee
+        # and the rest (Props/C05, single-step theorems about the model): a different movement is a failing purchase
+        return True
     if prop == 'C15' and (op.startswith('mintprobe') or (m.get('kind') == 'state' and all(x in ('custommint', 'sdkmint') for x in m.get('sections', ['?'])))):
         # the model's parameters after BeginBlock are those of the latest due entry (Props/C15)
         return True
